@@ -146,7 +146,13 @@ let run mode file =
             List.iter (fun f -> if String.length f > 15 && String.sub f 0 15 = "blocked-closed=" then
               List.iter (fun id -> Hashtbl.remove s.readers (int_of_string id)) (String.split_on_char ',' (String.sub f 15 (String.length f - 15)))) res;
             (match res with
-             | "ok" :: _ -> s.committed <- w; flag "fault-beyond-last-call"
+             | "ok" :: rest ->
+               (* success is only acceptable when no call was failed (the index lay beyond the commit's last call) *)
+               let hit = (try get (kv_of rest) "failed" with _ -> "") in
+               if hit <> "" then
+                 propfail "commit_reports_failure" (Printf.sprintf "a %s call of this commit failed but Commit returned nil" hit)
+               else flag "fault-beyond-last-call";
+               s.committed <- w
              | "hang" :: _ -> propfail "commit_returns" "Commit did not return"; dead := true
              | e :: _ when String.length e > 0 && e.[0] = 'E' ->
                flag ("fault-" ^ !fail_kind);
